@@ -13,8 +13,9 @@
           every mutator returns failure;
       - at [check]: if no handle was opened for writing since the snapshot, every file (the HDF file and the
         external files it references) has the same SHA-256 and no file was created or removed;
-      - at [dump]: unless a mutator was issued through a write-mode handle since the snapshot, the canonical
-        dump of everything readable equals the dump taken at the snapshot
+      - at [dump]: unless a mutator was issued through a write-mode handle since the snapshot, every record of
+        the canonical dump of everything readable taken at the snapshot (one record per stored object,
+        attribute, dimension: identity + content hash) is still present and unchanged
         (so: open for writing + close with no change requested leaves all objects readable and identical). *)
 From Coq Require Import ZArith List String Bool.
 Import ListNotations.
@@ -57,7 +58,8 @@ Record event := {
   e_args : list Z;        (* numeric arguments in order (non-numeric ones replaced as described above) *)
   e_rc : rcls;
   e_wbytes : Z; e_wcalls : Z; e_wcreates : Z;
-  e_aux : Z               (* check: 1 = all files same; dump: identifier of the dump text *)
+  e_aux : Z               (* check: 1 = all files same; dump: 1 = every record of the baseline dump (the first dump
+                             after the snapshot) is present, unchanged, in this dump *)
 }.
 
 Record st := {
@@ -65,10 +67,10 @@ Record st := {
   snapped : bool;                  (* after the snapshot directive *)
   rw_seen : bool;                  (* some handle was opened for writing since the snapshot *)
   tainted : bool;                  (* a mutator was issued while a write-mode handle was open *)
-  dump0 : option Z                 (* dump identifier taken right after the snapshot *)
+  dump0 : bool                     (* the baseline dump has been taken *)
 }.
 
-Definition init : st := {| opens := []; snapped := false; rw_seen := false; tainted := false; dump0 := None |}.
+Definition init : st := {| opens := []; snapped := false; rw_seen := false; tainted := false; dump0 := false |}.
 
 Definition wants_write (mode : Z) : bool := negb (Z.eqb (Z.land mode 6) 0).   (* DFACC_WRITE | DFACC_CREATE *)
 
@@ -87,7 +89,7 @@ Definition step (s : st) (e : event) : st * list clause :=
   let name := e_name e in
   if negb (snapped s) then
     (* building phase: unconstrained; only the open table and the snapshot are tracked *)
-    if String.eqb name "snapshot" then ({| opens := opens s; snapped := true; rw_seen := any_rw s; tainted := false; dump0 := None |}, [])
+    if String.eqb name "snapshot" then ({| opens := opens s; snapped := true; rw_seen := any_rw s; tainted := false; dump0 := false |}, [])
     else if String.eqb name "hopen" then
       (match e_rc e with ROk => set_opens s (((0, arg (e_args e) 0), wants_write (arg (e_args e) 1)) :: opens s) | _ => s end, [])
     else if String.eqb name "sdstart" then
@@ -107,10 +109,8 @@ Definition step (s : st) (e : event) : st * list clause :=
     (* the dump itself runs through read-only handles: it must not write either *)
     let devd := (if negb (any_rw s) && negb (Z.eqb (e_wcalls e) 0) then [WriteReachedDevice] else []) ++
                 (if negb (any_rw s) && negb (Z.eqb (e_wcreates e) 0) then [FileCreated] else []) in
-    match dump0 s with
-    | None => ({| opens := opens s; snapped := true; rw_seen := rw_seen s; tainted := tainted s; dump0 := Some (e_aux e) |}, devd)
-    | Some d => (s, devd ++ if negb (tainted s) && negb (Z.eqb d (e_aux e)) then [ObjectsChanged] else [])
-    end
+    if dump0 s then (s, devd ++ if negb (tainted s) && negb (Z.eqb (e_aux e) 1) then [ObjectsChanged] else [])
+    else ({| opens := opens s; snapped := true; rw_seen := rw_seen s; tainted := tainted s; dump0 := true |}, devd)
   else if String.eqb name "hopen" then
     let w := wants_write (arg (e_args e) 1) in
     let s1 := match e_rc e with ROk => set_opens s (((0, arg (e_args e) 0), w) :: opens s) | _ => s end in
